@@ -304,15 +304,16 @@ func driver(args []string) int {
 		stall *= 2
 	}
 
+	// Phase 1: all ordinary and Solo shards at once. Phase 2: the Fresh shards, one at a time
+	// on the then idle machine — their workloads want all processors for one cold start each.
 	var kids []*child
-	for i := range parts {
+	spawn := func(i int) (*child, error) {
 		ch := &child{idx: i, done: make(chan error, 1),
 			log:     filepath.Join(work, fmt.Sprintf("shard.%d.log", i)),
 			journal: filepath.Join(work, fmt.Sprintf("journal.%d", i))}
 		lf, err := os.Create(ch.log)
 		if err != nil {
-			fmt.Fprintln(os.Stderr, err)
-			return 2
+			return nil, err
 		}
 		cmd := exec.Command(self, "shard", p.ID, tier, strconv.FormatUint(seed, 10), work, strconv.Itoa(i), strconv.Itoa(nShards()))
 		cmd.Stdout, cmd.Stderr = lf, lf
@@ -324,42 +325,70 @@ func driver(args []string) int {
 			cmd.Env = append(cmd.Env, "GOMAXPROCS=1")
 		}
 		if err := cmd.Start(); err != nil {
-			fmt.Fprintln(os.Stderr, err)
-			return 2
+			lf.Close()
+			return nil, err
 		}
 		lf.Close()
 		ch.cmd = cmd
 		ch.lastMove = time.Now()
 		go func(ch *child) { ch.done <- ch.cmd.Wait() }(ch)
-		kids = append(kids, ch)
+		return ch, nil
 	}
-
-	// watch loop: stage 1 of the hang rule is "no journal progress for `stall` seconds".
-	running := len(kids)
-	for running > 0 {
-		time.Sleep(200 * time.Millisecond)
-		for _, ch := range kids {
-			if ch.exited {
-				continue
-			}
-			select {
-			case err := <-ch.done:
-				ch.exited, ch.err = true, err
-				running--
-				continue
-			default:
-			}
-			prog, _, _ := core.ReadJournal(ch.journal)
-			if prog != ch.lastProg {
-				ch.lastProg, ch.lastMove = prog, time.Now()
-			} else if time.Since(ch.lastMove) > time.Duration(stall)*time.Second {
-				ch.stalled = true
-				_ = ch.cmd.Process.Signal(syscall.SIGQUIT)
-				time.Sleep(2 * time.Second)
-				_ = ch.cmd.Process.Kill()
-				ch.lastMove = time.Now()
+	// watch: stage 1 of the hang rule is "no journal progress for `stall` seconds".
+	watch := func(batch []*child) {
+		running := len(batch)
+		for running > 0 {
+			time.Sleep(50 * time.Millisecond)
+			for _, ch := range batch {
+				if ch.exited {
+					continue
+				}
+				select {
+				case err := <-ch.done:
+					ch.exited, ch.err = true, err
+					running--
+					continue
+				default:
+				}
+				prog, _, _ := core.ReadJournal(ch.journal)
+				if prog != ch.lastProg {
+					ch.lastProg, ch.lastMove = prog, time.Now()
+				} else if time.Since(ch.lastMove) > time.Duration(stall)*time.Second {
+					ch.stalled = true
+					_ = ch.cmd.Process.Signal(syscall.SIGQUIT)
+					time.Sleep(2 * time.Second)
+					_ = ch.cmd.Process.Kill()
+					ch.lastMove = time.Now()
+				}
 			}
 		}
+	}
+	isFresh := func(i int) bool { return len(parts[i]) == 1 && units[parts[i][0]].Fresh }
+	var first []*child
+	for i := range parts {
+		if isFresh(i) {
+			continue
+		}
+		ch, err := spawn(i)
+		if err != nil {
+			fmt.Fprintln(os.Stderr, err)
+			return 2
+		}
+		first = append(first, ch)
+	}
+	watch(first)
+	kids = append(kids, first...)
+	for i := range parts {
+		if !isFresh(i) {
+			continue
+		}
+		ch, err := spawn(i)
+		if err != nil {
+			fmt.Fprintln(os.Stderr, err)
+			return 2
+		}
+		watch([]*child{ch})
+		kids = append(kids, ch)
 	}
 
 	// merge
@@ -460,18 +489,18 @@ func driver(args []string) int {
 		samples = samples[:16]
 	}
 	cov := map[string]interface{}{
-		"evaluations":         m.evals,
-		"distinct_nontrivial": distinct,
-		"nontrivial_events":   m.nontrivial,
+		"evaluations":          m.evals,
+		"distinct_nontrivial":  distinct,
+		"nontrivial_events":    m.nontrivial,
 		"distinct_hash_capped": m.capHit,
-		"rule":                p.Rule,
-		"samples":             samples,
-		"exhaustive":          exh,
-		"units_run":           m.units,
-		"units_planned":       len(units),
-		"shards":              len(kids),
-		"counters":            m.cnt,
-		"dimensions":          summarize(m.cov),
+		"rule":                 p.Rule,
+		"samples":              samples,
+		"exhaustive":           exh,
+		"units_run":            m.units,
+		"units_planned":        len(units),
+		"shards":               len(kids),
+		"counters":             m.cnt,
+		"dimensions":           summarize(m.cov),
 	}
 	if exhNote != "" {
 		cov["exhaustive_scope"] = exhNote
